@@ -185,7 +185,7 @@ CANARIES = [
     ("fragment size 255 -> 256", {"aiohomekit.protocol.tlv": lambda s: s.replace("if len(value) > 255:\n                    length = 255", "if len(value) > 256:\n                    length = 256")}, lambda n: n.startswith("encode/256")),
     ("merge of equal-typed neighbours dropped", {"aiohomekit.protocol.tlv": lambda s: s.replace("if len(result) > 0 and result[-1][0] == key:", "if False:")}, lambda n: n.startswith("encode/256")),
     ("length check dropped", {"aiohomekit.protocol.tlv": lambda s: s.replace("if length != len(value):", "if False:")}, lambda n: n.startswith("totality")),
-    ("separator emitted with length 1", {"aiohomekit.protocol.tlv": lambda s: s.replace("result.append(key)\n                    result.append(0)", "result.append(key)\n                    result.append(1)")}, lambda n: n.startswith("encode/0,1")),
+    ("separator emitted with length 1", {"aiohomekit.protocol.tlv": lambda s: s.replace("            if len(value) == 0:\n                result.append(key)\n                result.append(0)", "            if len(value) == 0:\n                result.append(key)\n                result.append(1)")}, lambda n: n.startswith("encode/0,1")),
 ]
 
 ASSUMPTIONS = [
